@@ -329,7 +329,7 @@ pub struct EmbedCase {
 }
 
 fn strategy_embed(_t: Tier) -> BoxedStrategy<EmbedCase> {
-    (prop_oneof![Just(Kind::Sop), Just(Kind::Sopes), Just(Kind::Esop)], 1usize..=3, 1usize..=2, arb_costs())
+    (prop_oneof![1 => Just(Kind::Sop), 2 => Just(Kind::Sopes), 1 => Just(Kind::Esop)], prop_oneof![1 => Just(1usize), 3 => 2usize..=3], 1usize..=2, arb_costs())
         .prop_flat_map(|(kind, k, outs, (a, x, o))| {
             // the ESOP model grows as 3^n with parity constraints: embed into at most 5 variables
             let max_n = if kind == Kind::Esop { 5usize } else { 8usize };
@@ -480,7 +480,7 @@ pub fn def() -> PropDef {
             name: "embed",
             rule: "metamorphic: 1..2 generated functions of k<=3 variables are embedded at generated positions into n<=8 variables (ESOP n<=5); the optimizers must return valid forms whose cost equals the exact optimum of the small functions (dummy variables never lower or raise the optimum). Reaches sizes (n = 5..8, variables >= 6, multi-word tables) where the exact DP itself is out of reach.",
             strategy: strategy_embed,
-            cases: (300, 6_000),
+            cases: (500, 8_000),
             exhaustive: None,
             exhaustive_note: "",
             run: run_embed,
